@@ -64,6 +64,18 @@ Definition open_outcome (eb ec em ech : bool) (e : entry) : opened :=
            end
   end.
 
+(* Reader.__init__ without a meta file and without nc/ns given: the channel count
+   is guessed from the file size (int16):
+     if   st_size / 384 % 2 == 0: nc = 384; ns = st_size / 2 / 384; fs = 30000
+     elif st_size / 385 % 2 == 0: nc = 385; ns = st_size / 2 / 385; fs = 30000; nsync = 1
+     else: AssertionError (nc, fs must be given)
+   (float division; `x / 384 % 2 == 0` holds exactly when 768 divides st_size).
+   Result: (nc, ns, nsync), None = the assertion fails. *)
+Definition flat_guess (size : Z) : option (Z * Z * Z) :=
+  if size mod 768 =? 0 then Some (384, size / 768, 0)
+  else if size mod 770 =? 0 then Some (385, size / 770, 1)
+  else None.
+
 (* ====================================================================== *)
 (* Part B — file-system machine                                            *)
 (* ====================================================================== *)
